@@ -261,7 +261,7 @@ func (f *frame) specCall(fn *ssa.Function, args []*Val) (*Val, error) {
 	}
 	// a non-recursive spec function applied to a string literal is expanded in place, so that
 	// comparisons with the literal are simplified (length and elements stated explicitly)
-	if litArg && !sym.Recursive && !sym.inProg && f.depth < 12 {
+	if litArg && !sym.Recursive && !sym.inProg && !sym.Uninterpreted && f.depth < 12 {
 		return f.inlineCall(fn, nil, args)
 	}
 	var rs []*Term
@@ -939,10 +939,16 @@ func (f *frame) callContract(fc *FuncContract, callee *ssa.Function, args []*Val
 		sub.st = pre.clone()
 		sub.reach = TTrue
 		for i, b := range ef.Bind {
-			if b.Kind == "param" {
+			switch b.Kind {
+			case "param":
 				sub.vals[efn.Params[i]] = args[b.Index]
-			} else {
-				return nil, unsupported("effect expression may only mention parameters")
+			case "result":
+				if b.Index >= len(results) {
+					return nil, unsupported("effect expression: result not available")
+				}
+				sub.vals[efn.Params[i]] = &Val{T: results[b.Index], Typ: sig.Results().At(b.Index).Type()}
+			default:
+				return nil, unsupported("effect expression may only mention parameters and results")
 			}
 		}
 		if err := sub.run(); err != nil {
